@@ -80,3 +80,171 @@ def install(reg, src):
             row = SSeq(n, lambda k: SReal(sp2.dv(e, FN(vs.get(k).ref), E, sp2.PV), "npfloat"), "ndarray", "jacobian-row")
             return SpecFn(None, "jacobian 1xn", meta={"methods": {"flatten": lambda ip3: row}, "row": row})
         c.returns(lambda cc: SpecFn(call, "compiled jacobian"))
+    install_c19(reg, src)
+
+
+# ======================================================================================= C19
+class XArr:
+    """Array over the extended reals (finiteness abstraction of C19): element k has a class cls[k] in
+    {0 finite, 1 NaN, 2 +Inf, 3 -Inf} and, when finite, the real value val[k]."""
+    def __init__(self, cls, val, n):
+        self.cls, self.val, self.n = cls, val, n
+
+
+def install_c19(reg, src):
+    import ast
+    from .seqtheory import named_forall, skolem, add_index
+    ClsArr = z3.ArraySort(sym.I, sym.I)
+
+    def isfinite_hook(ip, v):
+        if isinstance(v, XArr):
+            return SpecFn(None, "isfinite-mask", meta={"xarr": v})
+        raise Unsupported(f"np.isfinite of {type(v).__name__}")
+    reg.isfinite_hook = isfinite_hook
+
+    def np_all(ip, v):
+        if isinstance(v, SpecFn) and v.meta.get("xarr") is not None:
+            xa = v.meta["xarr"]
+            allf = named_forall(ip, "ALLFINITE", [xa.cls], xa.n, lambda k: z3.Select(xa.cls, k) == 0)
+            return SBool(allf(xa.n))
+        raise Unsupported("np.all of an untracked value")
+
+    def nan_to_num(ip, v, kw):
+        if not isinstance(v, XArr):
+            raise Unsupported("np.nan_to_num of an untracked value")
+        nanv = real_term(kw.get("nan", 0.0))
+        pinf = real_term(kw["posinf"]) if "posinf" in kw else None
+        ninf = real_term(kw["neginf"]) if "neginf" in kw else None
+        if pinf is None or ninf is None:
+            raise Unsupported("np.nan_to_num without posinf/neginf (defaults are the largest finite floats)")
+        cls = sym.fresh("san_cls", ClsArr)
+        val = sym.fresh("san_val", sym.RealArr)
+        out = XArr(cls, val, v.n)
+        from .seqtheory import seqs, _once
+
+        def pw(k):
+            if _once(ip, f"nan2num:{cls}:{k}"):
+                c0 = z3.Select(v.cls, k)
+                ip.path.assume(z3.Select(cls, k) == 0)
+                ip.path.assume(z3.Select(val, k) == z3.If(c0 == 0, z3.Select(v.val, k), z3.If(c0 == 1, nanv, z3.If(c0 == 2, pinf, ninf))))
+        seqs(ip).pointwise.append(pw)
+        return out
+    from pyvc.spec import Schema
+    Schema.np_all = lambda self, ip, v: np_all(ip, v)
+    Schema.nan_to_num = lambda self, ip, v, kw: nan_to_num(ip, v, kw)
+
+    @reg.contract(f"{CP}:_sanitize_derivatives", props=["C19"])
+    def _(c):
+        ip = c.ip
+        n = sym.fresh("n", sym.I)
+        ip.path.assume(n >= 0)
+        a = c.arg("arr", T.custom(lambda ip_, h: XArr(sym.fresh("in_cls", ClsArr), sym.fresh("in_val", sym.RealArr), n)))
+        if not c.verifying:
+            raise Unsupported("_sanitize_derivatives is applied through the finiteness check, not through its contract")
+        sk = skolem(ip, "sk_entry", n)
+        ip.path.assume(z3.And(z3.Select(a.cls, sk) >= 0, z3.Select(a.cls, sk) <= 3))
+        c.returns(T.none())
+
+        def post(res):
+            if not isinstance(res, XArr):
+                return z3.BoolVal(False)
+            inr = z3.And(sk >= 0, sk < n)
+            c0 = z3.Select(a.cls, sk)
+            rv = z3.Select(res.val, sk)
+            return [res.n == n,
+                    z3.Implies(inr, z3.Select(res.cls, sk) == 0),                                   # every entry finite
+                    z3.Implies(z3.And(inr, c0 == 0), rv == z3.Select(a.val, sk)),                    # finite entries unchanged
+                    z3.Implies(z3.And(inr, c0 == 1), rv == 0),                                       # NaN -> 0
+                    z3.Implies(z3.And(inr, c0 == 2), rv == sym.rv(1e16)),                            # +Inf -> +1e16
+                    z3.Implies(z3.And(inr, c0 == 3), rv == sym.rv(-1e16))]                           # -Inf -> -1e16
+        c.ensures("finite / unchanged / NaN->0 / +-Inf->+-1e16", post)
+
+    # ---- every derivative closure returns either a sanitised array or a finite-preserving expression of its input
+    FINITE_CALLS = {"np.sin", "np.cos", "np.sinh", "np.cosh", "np.tanh", "np.sign", "np.exp", "np.zeros", "np.ones", "np.diag",
+                    "np.full", "np.array", "np.abs", "np.negative"}
+
+    def finite_expr(e, env) -> bool:
+        """Sound syntactic abstraction: True only if the value is finite for every finite input (A1: no overflow)."""
+        if isinstance(e, ast.Constant):
+            return isinstance(e.value, (int, float)) and e.value == e.value and abs(e.value) != float("inf")
+        if isinstance(e, ast.Name):
+            return env.get(e.id, False)
+        if isinstance(e, ast.UnaryOp) and isinstance(e.op, (ast.USub, ast.UAdd)):
+            return finite_expr(e.operand, env)
+        if isinstance(e, ast.BinOp):
+            if isinstance(e.op, (ast.Add, ast.Sub, ast.Mult)):
+                return finite_expr(e.left, env) and finite_expr(e.right, env)
+            if isinstance(e.op, ast.Pow):
+                return finite_expr(e.left, env) and isinstance(e.right, ast.Constant) and isinstance(e.right.value, int) and e.right.value >= 0
+            return False        # division: not finite-preserving
+        if isinstance(e, ast.Subscript):
+            return finite_expr(e.value, env)
+        if isinstance(e, ast.Call):
+            fn_ = ast.unparse(e.func)
+            if fn_ == "_sanitize_derivatives":
+                return True
+            if env.get("callable:" + fn_):
+                return True     # a derivative callable built by one of the builders whose own closures are checked here
+            if fn_ in FINITE_CALLS:
+                return all(finite_expr(a_, env) for a_ in e.args if not isinstance(a_, ast.Constant) or True)
+            if isinstance(e.func, ast.Attribute) and e.func.attr in ("reshape", "flatten", "copy"):
+                return finite_expr(e.func.value, env)
+            return False
+        if isinstance(e, ast.Tuple):
+            return all(finite_expr(x, env) for x in e.elts)
+        return False
+
+    def closure_returns_finite(fnode, outer_finite: set[str]) -> tuple[bool, str]:
+        env = {a.arg: True for a in fnode.args.args}            # inputs are finite points
+        for nm in outer_finite:
+            env[nm] = True
+        ok = True
+        why = ""
+        for st_ in ast.walk(fnode):
+            if isinstance(st_, ast.Assign) and len(st_.targets) == 1:
+                t = st_.targets[0]
+                if isinstance(t, ast.Name):
+                    env[t.id] = finite_expr(st_.value, env)
+                elif isinstance(t, ast.Subscript) and isinstance(t.value, ast.Name):
+                    env[t.value.id] = env.get(t.value.id, False) and finite_expr(st_.value, env)
+        for st_ in ast.walk(fnode):
+            if isinstance(st_, ast.Return) and st_.value is not None:
+                if not finite_expr(st_.value, env):
+                    ok = False
+                    why = ast.unparse(st_.value)[:80]
+        return ok, why
+
+    DERIV_BUILDERS = [f"{CP}:compile_gradient", f"{CP}:_compile_vectorized_power_gradient",
+                      f"{CP}:_compile_vectorized_unary_gradient", f"{AD}:compile_jacobian", f"{AD}:compile_hessian",
+                      f"{CP}:CompiledExpression.gradient"]
+    # names bound in the enclosing builder that hold finite data (constants, precomputed arrays of constants, compiled
+    # sub-callables are *not* assumed finite: their results must go through the sanitiser)
+    OUTER_FINITE = {"ones", "zeros", "hess", "const_jac", "n", "m", "indices", "scale", "k", "coeff", "exp"}
+
+    @reg.contract("lemma:finite:derivative-closures", props=["C19"])
+    def _(c):
+        c.returns(T.none())
+        goals = []
+        for key in DERIV_BUILDERS:
+            fi = src.funcs.get(key)
+            if fi is None:
+                goals.append((f"{key} exists", False, "function not found"))
+                continue
+            closures = [n_ for n_ in ast.walk(fi.node) if isinstance(n_, ast.FunctionDef) and n_ is not fi.node]
+            if key.endswith("CompiledExpression.gradient"):
+                continue
+            builders = {k_.split(":")[1].split(".")[-1] for k_ in DERIV_BUILDERS}
+            fin_callables = set()
+            for st_ in ast.walk(fi.node):
+                if isinstance(st_, ast.Assign) and isinstance(st_.value, ast.Call) and isinstance(st_.targets[0], ast.Name) \
+                        and ast.unparse(st_.value.func) in builders:
+                    fin_callables.add("callable:" + st_.targets[0].id)
+            for cn in closures:
+                ok, why = closure_returns_finite(cn, OUTER_FINITE | fin_callables)
+                goals.append((f"{key.split(':')[1]}.{cn.name}", ok, why))
+
+        def on_exit(cc, outcome, val):
+            for name, ok, why in goals:
+                cc.path.oblige(cc.ip.cur_oid(f"{name} returns a sanitised or finite-preserving array"), z3.BoolVal(ok), kind="post",
+                               detail=why)
+        c.on_exit.append(on_exit)
